@@ -459,6 +459,57 @@ Definition show_ret (syms : symtab) (specs : list spec) (data : option (list N))
   | Some d => [32; 61; 32] ++ show_loop syms true specs d true ++ [59]
   end.
 
+(* --- the same text inside replay's buffer: char args[1024] (print_graph_rstack), written piece by piece by
+   print_args / print_char (cmds/replay.c, after the fix: commits 618ee80 / 0cdad2d): a piece that does not fit is
+   dropped as a whole and nothing more is taken; the loop over the arguments stops when fewer than 2 characters are left *)
+Definition TEXT_SIZE : N := 1024.
+Definition put (st : N * list N) (p : list N) : N * list N :=          (* st = (characters that still fit, text) *)
+  let '(room, out) := st in if lenN p <=? room then (room - lenN p, out ++ p) else (0, out).
+
+(* the pieces of one argument, in the order they are printed *)
+Definition show_pieces (syms : symtab) (s : spec) (data : list N) : list (list N) * N :=
+  match s_fmt s with
+  | FStr | FStdStr =>
+      let slen := of_le (takeN 2 data) in
+      let body := takeN slen (dropN 2 data) in
+      ((if (slen =? 4) && list_eqb body [255; 255; 255; 255] then [null_str]
+        else let str := cstr body in
+             [quote] ++ (match after_high str with _ :: _ => [str] | [] => map escaped_char str end) ++ [quote])
+       ++ (match s_fmt s with FStdStr => [[115]] | _ => [] end),
+       ALIGN (slen + 2) 4)
+  | FChar => ([squote; escaped_char (nthN data 0); squote], ALIGN (s_size s) 4)
+  | FStruct =>
+      ([if list_eqb (s_name s) [] || list_eqb (s_name s) lambda_name then [] else s_name s;
+        if s_size s =? 0 then [123; 125] else [123; 46; 46; 46; 125]], ALIGN (s_size s) 4)
+  | _ => ([fst (show_one syms s data)], snd (show_one syms s data))
+  end.
+
+Fixpoint show_loop_b (syms : symtab) (is_ret : bool) (specs : list spec) (data : list N) (first : bool)
+                     (st : N * list N) : N * list N :=
+  match specs with
+  | [] => st
+  | s :: r =>
+      if negb (Bool.eqb is_ret (s_idx s =? 0)) then show_loop_b syms is_ret r data first st
+      else
+        let st1 := if first then st else put st comma in
+        let '(ps, adv) := show_pieces syms s data in
+        let st2 := fold_left put ps st1 in
+        if (fst st2 <=? 1) || is_ret then st2                          (* `if (len <= 2) break;` / first retval only *)
+        else show_loop_b syms is_ret r (dropN adv data) false st2
+  end.
+
+Definition show_args_b (syms : symtab) (specs : list spec) (data : option (list N)) : list N :=
+  match data with
+  | None => [40; 41]
+  | Some d => snd (put (show_loop_b syms false specs d true (put (TEXT_SIZE - 1, []) [40])) [41])
+  end.
+Definition show_ret_b (syms : symtab) (specs : list spec) (data : option (list N)) : list N :=
+  match data with
+  | None => []
+  | Some d => let st := show_loop_b syms true specs d true (put (TEXT_SIZE - 1, []) [32; 61; 32]) in
+              snd st ++ (if 1 <=? fst st then [59] else [])               (* `if (needs_semi_colon && len > 1)` *)
+  end.
+
 (* does any spec of this direction use a format whose text is not modelled? *)
 Definition text_modelled (is_ret : bool) (specs : list spec) : bool :=
   forallb (fun s => negb (Bool.eqb is_ret (s_idx s =? 0)) ||
@@ -502,8 +553,8 @@ Definition model_call (syms : symtab) (c : call) : observation :=
                  enc_rec 0 (c_t1 c) UFTRACE_ENTRY 1 (c_child c) None ++
                  enc_rec 0 (c_t2 c) UFTRACE_EXIT 1 (c_child c) None ++
                  enc_rec 0 (c_t3 c) UFTRACE_EXIT 0 (c_addr c) px;
-     o_args_text := show_args syms (c_specs c) pe;
-     o_ret_text := show_ret syms (c_specs c) px |}.
+     o_args_text := show_args_b syms (c_specs c) pe;
+     o_ret_text := show_ret_b syms (c_specs c) px |}.
 
 Definition unmodelled (c : call) : bool :=
   (existsb (fun s => (s_idx s =? 0) && fmt_eqb (s_fmt s) FFloat && (s_size s =? 10)) (c_specs c)).
@@ -614,12 +665,35 @@ Definition has_float (l : list (spec * aval)) : bool :=
   existsb (fun p => match snd p with AFlt _ => true | _ => false end) l.
 
 (* the argument text of replay shows the values passed (or nothing at all when they cannot fit) *)
+(* a text that (nearly) fills replay's 1 KiB buffer may stop early: every value shown completely must be right, the
+   last one may be cut *)
+Definition TEXT_CUT : N := 1000.
+Fixpoint match_cut (l : list (spec * aval)) (txt : list N) (first : bool) : bool :=
+  match l with
+  | [] => match txt with [] => true | [41] => true | _ => false end
+  | (s, a) :: r =>
+      match txt with
+      | [] => true                                  (* the buffer was full *)
+      | [41] => true                                (* the loop stopped (fewer than 2 characters left), ")" still fitted *)
+      | _ =>
+        let txt1 := if first then Some txt
+                    else if prefixb comma txt then Some (skipn 2 txt) else if prefixb txt comma then Some [] else None in
+        match txt1 with
+        | None => false
+        | Some [] => true
+        | Some t => anyb (fun c => if prefixb c t then match_cut r (skipn (length c) t) false else prefixb t c) (accept s a)
+        end
+      end
+  end.
 Definition ok_args (actual : list (spec * aval)) (txt : list N) : bool :=
   match actual with
   | [] => list_eqb txt [40; 41]
   | _ =>
       if has_float actual then true else
-      if fits actual then match strip_paren txt with Some t => match_vals actual t true | None => false end
+      if fits actual then
+        (match strip_paren txt with Some t => match_vals actual t true | None => false end) ||
+        ((TEXT_CUT <=? lenN txt) && (lenN txt <? TEXT_SIZE) &&
+         match txt with 40 :: t => match_cut actual t true | _ => false end)
       else list_eqb txt [40; 41]
   end.
 (* replay shows the first return-value spec only *)
